@@ -20,6 +20,8 @@ N11 inside functions:  x: T = e   ->  x = e                  (an annotation on a
 N12 inside functions:  t = <pure e> ; S[t]   ->  S[e]        (t a plain local read exactly once, in the next statement, and
                                       named nowhere else in the function; e without calls other than len(); no call in S is
                                       completed before t is read, so e is evaluated in the same state either way)
+N13 calls of a package function/class by its plain name (defined exactly once in the package): leading keyword arguments that
+    name the next positional parameter are written positionally ( f(a, name=v) -> f(a, v) ); evaluation order is unchanged
 Positions (lineno/col_offset) of the rewritten nodes are kept for reporting.
 """
 from __future__ import annotations
@@ -269,7 +271,21 @@ def _inline_single_use_temps(tree):
     return tree
 
 
-def normalise(tree: ast.AST, typed_locals: bool = False) -> ast.AST:
+def _positional_where_possible(tree, signatures):
+    """N13"""
+    for c in ast.walk(tree):
+        if isinstance(c, ast.Call) and isinstance(c.func, ast.Name) and c.func.id in signatures and c.keywords:
+            if any(isinstance(a, ast.Starred) for a in c.args):
+                continue
+            ps = signatures[c.func.id]
+            while c.keywords and c.keywords[0].arg is not None and len(c.args) < len(ps) and c.keywords[0].arg == ps[len(c.args)]:
+                c.args.append(c.keywords.pop(0).value)
+    return tree
+
+
+def normalise(tree: ast.AST, typed_locals: bool = False, signatures=None) -> ast.AST:
+    if signatures:
+        tree = _positional_where_possible(tree, signatures)
     if not typed_locals:  # in lowered .pyx modules the annotation is the C type of the local, which rules read
         tree = _DropLocalAnnotations().visit(tree)
     tree = _inline_single_use_temps(tree)
